@@ -272,6 +272,14 @@ def run(ctx):
                     kw = dict(freq=R.DAILY if k % 2 else R.YEARLY, byeaster=[off, 0], dtstart=D.datetime(y, 12, 1, 8, 15), count=4)
                     one_rule(ctx, R, probe, kw, {'start_kind': 'naive'})
                     ctx.count('january_easter_rules')
+        # directed: weekly positions in the very first week of the calendar (0001-01-01 is a Monday: the week start of a
+        # start in 0001-01-02..07 is ordinal 1 or lies before it)
+        for wk in range(7):
+            for day in range(1, 8):
+                for by in ({'byweekday': [R.MO, R.WE, R.FR], 'bysetpos': 2}, {'byweekday': [R.TU, R.SU], 'bysetpos': [1, -1]}, {'byweekday': [R.SA]}):
+                    kw = dict(freq=R.WEEKLY, wkst=wk, dtstart=D.datetime(1, 1, day, 9), count=4, **by)
+                    one_rule(ctx, R, probe, kw, {'start_kind': 'naive'})
+                    ctx.count('first_week_of_year_one_rules')
         # rules that can never match: ValueError or nothing, never a wrong instant
         for base in NEVER:
             for st in (D.datetime(1997, 9, 2, 9, 0, 0), D.datetime(2000, 2, 29, 1, 7, 30)):
